@@ -15,7 +15,7 @@ from vlib.runner import Mismatch, drive
 PROP = "C07"
 LEVEL = "exploration"
 WORKERS = {"quick": 4, "thorough": 16}
-BUDGET = {"quick": 60, "thorough": 600}
+BUDGET = {"quick": 100, "thorough": 600}
 TECHNIQUE = (
     "C06's grammar-based filters rewritten by seven semantics-preserving rules (metamorphic id-set agreement), "
     "cursor operations against the cursor's own id list, groupby against an independent partition oracle "
